@@ -44,11 +44,15 @@ def C19():
     chk.units.append("arch_off")
     lib, _ = _broad_jobs(3, ops=False)
     n = r_reg.run_jobs(chk, ua, "R-REG.arch", lib)
+    uc = F.load("cases_arch")
+    chk.units.append("cases_arch")
+    for fn, nm in (("operator_suite", 4), ("bilinear_suite", 3), ("linear_suite", 4)):
+        n += r_reg.run_jobs(chk, uc, "R-REG.arch", _ops_jobs(fn, nm))
     # factorial / binomial tables up to 16!: every integer handed to the scalar type fits an int
     for unit in (u, ua):
         r_reg.run_jobs(chk, unit, "R-REG.const", [("bsv.r_reg_ops", "constant_table_suite", dict(nmax=16))])
     chk.note("regions_evaluated_with_archetype", n)
-    chk.floor("R-REG.arch", chk.rules["R-REG.arch"]["instances"], 100, "(function, clause) obligations on the "
+    chk.floor("R-REG.arch", chk.rules["R-REG.arch"]["instances"], 140, "(function, clause) obligations on the "
               "archetype instantiation")
     return chk
 
